@@ -27,7 +27,7 @@ CUSTOM_KEY_MAP = {"data_id": "i", "str": "s", "kind": "k", "type": "t", "name": 
                   "age": "a", "guid": "g"}
 CUSTOM_VALUE_MAP = {"type": ["int", "tup", "person", "obj", "wrap"]}
 
-IDENTITY_HASHED = ("w", "o")
+IDENTITY_HASHED = ("w", "o", "f")
 
 
 def _interning_deser(w: World, cache: dict):
@@ -49,7 +49,17 @@ def _interning_deser(w: World, cache: dict):
             cache[key] = decode_value(core, w.nt)
         return cache[key]
 
-    return deser
+    def deser_any(parent, data):
+        if "type" not in data and "n" in data and "str" not in data:
+            w.fault.tick("mapper")
+            core = {k: v for k, v in data.items() if k in ("n", "d", "s", "m")}
+            key = json.dumps(core, sort_keys=True)
+            if key not in cache:
+                cache[key] = decode_value(core, w.nt)
+            return cache[key]
+        return deser(parent, data)
+
+    return deser_any
 
 
 def _ser(w: World, style="inplace_ret"):
@@ -80,6 +90,10 @@ def _pool_key_for(obj):
         return f"w:{obj._dict['k']}"
     if f == "o":
         return "o:" + obj.guid[1:]
+    if f == "f":
+        if obj.is_dir:
+            return "g:" + obj.name[1:]
+        return "f:" + obj.name[1:-4]
     return None
 
 
@@ -252,7 +266,7 @@ def plan_restart(w: World, op: dict) -> Plan:
         return _plan_restart_dict(w, op, si, mt, rt)
     flavour = mt.flavour
     cls = w.tree_class(flavour)
-    class_style = flavour in ("sub", "tsub")
+    class_style = flavour in ("sub", "tsub", "fs")
     # loading without a mapper is documented for plain string entries only
     # (typed: {"str", "kind"}); dict entries need a mapper by documentation
     plain_entries = all(isinstance(m.data, str) and m.did == hash(m.data)
@@ -266,6 +280,9 @@ def plan_restart(w: World, op: dict) -> Plan:
     for m in mt.root.iter_pre():
         if m.kind not in kinds:
             kinds.append(m.kind)
+    if op.get("key_map") == "custom" and (flavour == "fs" or any(
+            flavour_of(m.data) == "f" for m in mt.root.iter_pre())):
+        return Plan(EXCLUDED, why="custom key map colliding with the FileSystemTree mapper keys")
     kw, exp_k, exp_v = _effective_maps(w, flavour, cls, op.get("key_map", "default"),
                                        op.get("value_map", "default"), kinds)
     user_meta = op.get("meta")
@@ -407,7 +424,8 @@ def _adopt_loaded(w: World, si: int, loaded, mt, op, owner, trigger, old_groups,
                 if getattr(rc, "kind", None) != mc.kind:
                     fail("kind", f"kind {getattr(rc, 'kind', None)!r} at {path}/"
                                  f"{w.dkey(mc.data)}, expected {mc.kind!r}")
-            value_derived = (mc.did != hash(mc.data)) or flavour_of(mc.data) not in ("w", "o")
+            value_derived = (mc.did != hash(mc.data)) or \
+                flavour_of(mc.data) not in IDENTITY_HASHED
             if value_derived and rc.data_id != mc.did:
                 fail("data_id", f"data_id at {path}/{w.dkey(mc.data)} changed "
                                 f"(was {w.did_sym(mc)})")
